@@ -39,8 +39,9 @@ class RNGMixin:
             self._rng_seed = None
             rng = np.random.default_rng()
         elif isinstance(rng, (int, float)):
-            self._rng_seed = rng
-            rng = np.random.default_rng(rng)
+            seed = rng
+            rng = np.random.default_rng(seed)  # raises for an invalid seed before anything is stored
+            self._rng_seed = seed
         elif isinstance(rng, np.random.Generator):
             self._rng_seed = rng.bit_generator._seed_seq.entropy  # type:ignore ## get the seed
         elif isinstance(rng, torch.Generator):
